@@ -138,10 +138,13 @@ STAGES = [['C14_poly.v', 'C14_data.v'], ['C14_synth.v'], ['C14.v']]
 # ------------------------------------------------------------------------------------------------
 # implementation entry points
 # ------------------------------------------------------------------------------------------------
-def impl_field(lat, lon, h, date):
-    """fresh object, explicit date: the object-state defects of C15 cannot interfere"""
+def impl_field(lat, lon, h, date, frame='NED', prev=None):
+    """fresh object, explicit date: the object-state defects of C15 cannot interfere.  `prev` = arguments of an earlier
+    call on the same object (also with an explicit date)"""
     from ahrs.utils.wmm import WMM
-    w = WMM(date=date, latitude=0.0, longitude=0.0)
+    w = WMM(date=date, latitude=0.0, longitude=0.0, frame=frame)
+    if prev is not None:
+        w.magnetic_field(prev[0], prev[1], prev[2], date=prev[3])
     w.magnetic_field(lat, lon, h, date=date)
     return np.array([w.X, w.Y, w.Z], dtype=float)
 
@@ -197,28 +200,43 @@ def model_inputs(lat, lon, h, date):
 
 
 def gen_cases(rng, n):
-    """(lat, lon, h, date) over the property's domain, thin regions first"""
+    """(lat, lon, h, date) over the property's domain, thin regions first (poles, epoch boundaries, negative heights,
+    longitudes 0/+-180, integer-typed arguments)"""
     grid = [round(2015.0 + 0.1 * k, 1) for k in range(151)]
     out = []
-    edge_lat = [90.0, -90.0, 0.0, 90 - 1e-3, -90 + 1e-3, 90 - 1e-6, -90 + 1e-6, 90 - 1e-9, 90 - 1e-12, 55.0, -55.0, 45.0]
+    U = lambda a, b: float(rng.uniform(a, b))
+    edge_lat = [90.0, -90.0, 0.0, 90 - 1e-3, -90 + 1e-3, 90 - 1e-6, -90 + 1e-6, 90 - 1e-9, 90 - 1e-12, -90 + 1e-12, 55.0, -55.0, 45.0]
     edge_lon = [0.0, 180.0, -180.0, 90.0, -90.0, 11.575508]
-    edge_h = [0.0, -1.0, 850.0, 100.0]
+    edge_h = [0.0, -1.0, 850.0, 100.0, -0.5]
     edge_date = [2015.0, 2019.9, 2020.0, 2020.1, 2024.9, 2025.0, 2025.1, 2030.0, 2017.5, 2022.5]
     k = 0
     for la in edge_lat:
         out.append((la, edge_lon[k % len(edge_lon)], edge_h[k % len(edge_h)], edge_date[k % len(edge_date)]))
         k += 1
+    # the poles again, at generic longitudes / heights / every coefficient file
+    for la in (90.0, -90.0):
+        for d in (2016.4, 2020.0, 2027.9):
+            out.append((la, U(-180, 180), U(-1, 850), d))
     for d in edge_date:
-        out.append((float(rng.uniform(-90, 90)), float(rng.uniform(-180, 180)), float(rng.uniform(-1, 850)), d))
+        out.append((U(-90, 90), U(-180, 180), U(-1, 850), d))
+        out.append((U(-90, 90), edge_lon[k % len(edge_lon)], U(-1, 0), d))
+        k += 1
     for lo in edge_lon:
-        out.append((float(rng.uniform(-90, 90)), lo, float(rng.uniform(-1, 850)), grid[int(rng.integers(0, 151))]))
+        out.append((U(-90, 90), lo, U(-1, 850), grid[int(rng.integers(0, 151))]))
+        out.append((U(-90, 90), lo, U(-1, 0), grid[int(rng.integers(0, 151))]))
+    # integer-typed arguments (Python ints), incl. integer dates on the epoch boundaries
+    for la, lo, hh, d in ((45, 90, 0, 2020), (-30, -180, 100, 2025), (0, 0, 0, 2015), (90, 0, 0, 2022), (-90, 180, 850, 2030),
+                          (10, -20, -1, 2019), (60, 180, 5, 2024.9), (-45.5, 30, 12, 2020.0), (33, 77.7, 0, 2017.5)):
+        out.append((la, lo, hh, d))
     # off-grid dates: the model is evaluated at round(date, 1), the file is chosen by the unrounded date
     for d in (2019.96, 2020.04, 2024.97, 2025.03, 2016.3141, 2029.77):
-        out.append((float(rng.uniform(-90, 90)), float(rng.uniform(-180, 180)), float(rng.uniform(-1, 850)), d))
+        out.append((U(-90, 90), U(-180, 180), U(-1, 850), d))
+    base = len(out)
     while len(out) < n:
-        lat = float(np.degrees(np.arcsin(rng.uniform(-1, 1)))) if rng.random() < 0.3 else float(rng.uniform(-90, 90))
-        out.append((lat, float(rng.uniform(-180, 180)), float(rng.uniform(-1, 850)), grid[int(rng.integers(0, 151))]))
-    return out[:max(n, 34)]
+        lat = float(np.degrees(np.arcsin(rng.uniform(-1, 1)))) if rng.random() < 0.3 else U(-90, 90)
+        h = U(-1, 0) if rng.random() < 0.1 else U(-1, 850)
+        out.append((lat, U(-180, 180), h, grid[int(rng.integers(0, 151))]))
+    return out[:max(n, base)]
 
 
 def _corr_model(ctx, cases, label):
@@ -398,23 +416,30 @@ def _region(lat, date):
 
 
 def o_field(inp):
-    """X, Y, Z of WMM().magnetic_field equal the independent series"""
-    lat, lon, h = float(inp['lat']), float(inp['lon']), float(inp['h'])
+    """X, Y, Z of WMM().magnetic_field equal the independent series.  The arguments are handed over exactly as given
+    (Python ints stay ints); optional: frame='ENU' (components are then east, north, up), prev=[lat, lon, h, date] of an
+    earlier call on the same object, date as [y, m, d] for a datetime.date"""
+    lat, lon, h = inp['lat'], inp['lon'], inp['h']
     date = inp['date']
     if isinstance(date, (list, tuple)):
         dd = datetime.date(*date)
         dec = dd.year + dd.timetuple().tm_yday / 365.0
     else:
-        dd, dec = float(date), float(date)
-    reg = _region(lat, dec)
-    io = call_outcome(impl_field, lat, lon, h, dd)
+        dd, dec = date, float(date)
+    frame = inp.get('frame', 'NED')
+    reg = _region(float(lat), dec) + ('' if frame == 'NED' else '+enu') + ('+second-call' if inp.get('prev') else '')
+    io = call_outcome(impl_field, lat, lon, h, dd, frame, inp.get('prev'))
     if io[0] == 'raise':
-        return {'tag': f'magnetic_field/raises-{io[1]}', 'observed': list(io[1:])}
+        return {'tag': f'magnetic_field/raises-{io[1]}@{reg}', 'observed': list(io[1:])}
     got = io[1]
-    exp, c = spec_field(lat, lon, h, dec)
+    exp, c = spec_field(float(lat), float(lon), float(h), dec)
+    if frame.upper() == 'ENU':
+        exp = np.array([exp[1], exp[0], -exp[2]])
     B = float(np.linalg.norm(exp))
-    # 1e-6 nT + 1e-9 relative; plus the conditioning of arcsin near the poles (an ulp of z/r moves phi' by ulp/cos phi')
-    tol = 1e-6 + 1e-9 * B + 16 * 2.3e-16 * B / max(abs(c), 1e-300)
+    # 1e-6 nT + 1e-9 relative; plus the conditioning of arcsin near the poles: rounding z/r moves phi' by at most
+    # min(ulp / cos phi', sqrt(2 ulp)), and the field changes by a few B per radian
+    dphi = min(4 * 1.2e-16 / max(abs(c), 1e-300), 3e-8)
+    tol = 1e-6 + 1e-9 * B + 4 * B * dphi
     if not np.all(np.isfinite(got)):
         return {'tag': f'magnetic_field/non-finite@{reg}', 'observed': got, 'expected': exp}
     for i, nm in enumerate('XYZ'):
@@ -483,8 +508,14 @@ def search(ctx, scale):
     n = 1500 * scale
     for (lat, lon, h, date) in gen_cases(ctx.rng, n):
         inp = {'lat': lat, 'lon': lon, 'h': h, 'date': date}
-        ctx.check('field', inp, _wrap(o_field, inp), nontrivial_key=(round(lat, 6), round(lon, 6), round(h, 3), date))
-    for ymd in ((2015, 1, 1), (2017, 5, 12), (2019, 12, 31), (2020, 1, 1), (2024, 12, 30), (2025, 1, 2), (2029, 7, 1)):
+        ctx.check('field', inp, _wrap(o_field, inp), nontrivial_key=(round(float(lat), 6), round(float(lon), 6), round(float(h), 3), date))
+    cs = gen_cases(ctx.rng, 40)
+    for i, (lat, lon, h, date) in enumerate(cs[:40]):
+        inp = {'lat': lat, 'lon': lon, 'h': h, 'date': date, 'frame': 'ENU' if i % 2 == 0 else 'enu'}
+        ctx.check('field', inp, _wrap(o_field, inp), nontrivial_key=('enu', i))
+        inp = {'lat': lat, 'lon': lon, 'h': h, 'date': date, 'prev': list(cs[(7 * i + 3) % len(cs)])}
+        ctx.check('field', inp, _wrap(o_field, inp), nontrivial_key=('second', i))
+    for ymd in ((2015, 1, 1), (2017, 5, 12), (2019, 6, 30), (2020, 1, 1), (2024, 3, 1), (2025, 1, 2), (2029, 7, 1)):
         inp = {'lat': float(ctx.rng.uniform(-90, 90)), 'lon': float(ctx.rng.uniform(-180, 180)), 'h': float(ctx.rng.uniform(-1, 850)),
                'date': list(ymd)}
         ctx.check('field', inp, _wrap(o_field, inp), nontrivial_key=ymd)
